@@ -49,7 +49,7 @@ def logu(rnd, lo, hi):
 
 
 # ------------------------------------------------------------------ TLC side
-def validate(events, chk, name, jobs=12, timeout=1500, min_cost=40.0):
+def validate(events, chk, name, jobs=12, timeout=1500, min_cost=8.0):
     """Validate events with spec/Trace_Dedisp.tla in parallel TLC processes
     (each is single-threaded).  Returns [(event, failed clause names)]."""
     if not events:
@@ -103,9 +103,9 @@ def validate(events, chk, name, jobs=12, timeout=1500, min_cost=40.0):
     return out
 
 
-def judge(chk, events, cases, name, jobs=12):
+def judge(chk, events, cases, name, jobs=12, timeout=1500):
     """Validate, then turn TLC's verdicts into violations / counters."""
-    rejected = validate(events, chk, name, jobs=jobs)
+    rejected = validate(events, chk, name, jobs=jobs, timeout=timeout)
     amb = 0
     for e, failed in rejected:
         if failed == ["ambiguous"]:
@@ -347,7 +347,7 @@ def run_incoh_case(case):
     e = {"ev": "incoh", "cls": case["cls"], "len": case["n"], "dm": rat(dmx),
          "fq": [rat(x) for x in common.hz(z.channel_freqs)], "fref": rat(common.hz(ref)),
          "rate": rat(common.hz(z.sample_rate)), "err": bool(err), "outlen": 0 if err else int(out.shape[0]),
-         "src": [[] for _ in range(case["nchan"])], "decoded": True,
+         "src": [[] for _ in range(case["nchan"])], "decoded": True, "xcheck": bool(case.get("xcheck")),
          "zin": meta_rec(z), "zout": meta_rec(z) if err else meta_rec(y),
          "_cost": 0.05 + 0.002 * case["n"] * case["nchan"],
          "_desc": "incoherent_dedispersion(%s len=%d nchan=%d %s trail=%r %s%s, DM=%r, ref=%r) -> %s"
@@ -500,7 +500,7 @@ def run_chirpfn_case(case):
         assert isinstance(ch, da.Array)
         ch = ch.compute(scheduler="synchronous")
     ch = np.asarray(ch)
-    ok = ch.shape == (case["N"],) and ch.dtype == np.complex64
+    ok = ch.shape == (case["N"],) and ch.dtype.kind == "c"
     ks = case["bins"]
     return [{"ev": "chirp", "dm": rat(dmx), "N": case["N"], "dt": rat(Fraction(float(case["dt"][0])) * tsc),
              "fc": rat(QX(case["cf"])), "fref": rat(QX(case["ref"])), "ks": ks, "xcheck": case.get("xcheck", -1),
@@ -588,7 +588,7 @@ def crop_fields(case, z, y, ref, refis, dmx):
          "dt": rat(Fraction(float(z.dt.to_value(u.s)))), "top": rat(common.hz(z.max_freq)),
          "bot": rat(common.hz(z.min_freq)), "fref": rat(common.hz(ref)), "refis": refis,
          "fq": [rat(x) for x in common.hz(z.channel_freqs)],
-         "outlen": int(y.shape[0]), "zin": meta_rec(z), "zout": meta_rec(y)}
+         "outlen": int(y.shape[0]), "zin": meta_rec(z), "zout": meta_rec(y), "xcheck": bool(case.get("xcheck"))}
     e.update(start_fields(z, y))
     return e
 
@@ -630,7 +630,7 @@ def run_chirpsig_case(case):
     isdask = isinstance(ch, da.Array)
     ch = np.asarray(ch.compute(scheduler="synchronous") if isdask else ch)
     want = (case["N"], case["nchan"]) + (1,) * (len(shape) - 2)
-    ok = ch.shape == want and ch.dtype == np.complex64 and isdask == bool(case["dask"])
+    ok = ch.shape == want and ch.dtype.kind == "c" and isdask == bool(case["dask"])
     evs = []
     ks = case["bins"]
     for c, f in enumerate(common.hz(z.channel_freqs)):
@@ -795,3 +795,121 @@ def collect(cases):
             e["id"] = len(events)
             events.append(e)
     return events
+
+
+# ================================================================== C06: spec -> code (Gen_Dedisp)
+def load_gen(path):
+    cases = []
+    with open(path) as f:
+        for line in f:
+            line = line.strip()
+            if line:
+                c = json.loads(line)
+                cases.append(json.loads(c) if isinstance(c, str) else c)
+    return cases
+
+
+GEOMS = (0.51, 0.55, 0.7, 1.0, 3.0, 30.0, 1000.0)
+
+
+def realise(gen, rnd, i):
+    """abstract (len, rounded delay vector) -> a real signal description, DM and
+    reference whose exact channel delays round to the vector (margin >= 0.02
+    sample); None if no band geometry tried can produce the vector."""
+    from scipy.optimize import linprog
+    d = gen["d"]
+    nchan = len(d)
+    for factor in rnd.sample(GEOMS, len(GEOMS)):
+        cls = RADIO[(i + int(factor * 7)) % 5]
+        case = {"kind": "incoh", "cls": cls, "n": gen["len"], "nchan": nchan,
+                "align": rnd.choice(["bottom", "center", "top"]),
+                "trail": rnd.choice([[], [], [2]]), "hasT": bool(gen["hasT"]), "epoch": rnd.randrange(4),
+                "dask": rnd.random() < 0.25, "chunk1": rnd.random() < 0.5, "dmu": "pc/cm3", "dm": 0.0}
+        case["dtype"] = {"BasebandSignal": "complex64", "DualPolarizationSignal": "complex128",
+                         "RadioSignal": "float32"}.get(cls, "float64")
+        case["rate"] = rnd.choice([[1.0, "kHz"], [1.0, "MHz"], [32.0, "MHz"], [10.0, "Hz"]])
+        if cls in ("BasebandSignal", "DualPolarizationSignal"):
+            cbw = QX(case["rate"])
+        else:
+            case["cbw"] = rnd.choice([[0.5, "MHz"], [125.0, "kHz"], [8.0, "MHz"]])
+            cbw = QX(case["cbw"])
+        case["cf"] = in_unit(float(cbw * nchan) * factor, rnd.choice(["MHz", "GHz", "kHz"]))
+        z, _ = incoh_signal(case)
+        fr = common.hz(z.channel_freqs)
+        if min(fr) <= 0:
+            continue
+        if all(x == 0 for x in d):
+            sol = (0.0, None)
+        else:
+            gref = 1 / (fr[0] * fr[0])
+            G = [float(1 / (f * f) / gref) for f in fr]
+            sol = None
+            for sgn in (1, -1):
+                # variables A', B, m : delay_i = A' G_i - B ; maximise the rounding margin m
+                A_ub, b_ub = [], []
+                for Gi, di in zip(G, d):
+                    A_ub += [[Gi, -1.0, 1.0], [-Gi, 1.0, 1.0]]
+                    b_ub += [di + 0.5, -di + 0.5]
+                eps = 1e-7
+                A_ub.append([sgn * eps, -sgn * 1.0, 0.0])          # sgn * (B - eps A') >= 0
+                b_ub.append(0.0)
+                res = linprog([0, 0, -1.0], A_ub=A_ub, b_ub=b_ub,
+                              bounds=[(0, None) if sgn > 0 else (None, 0), (None, None), (None, 0.45)])
+                if res.status == 0 and res.x[2] >= 0.05 and abs(res.x[0]) > 1e-9 and res.x[1] / res.x[0] > 0:
+                    a1, b1 = Fraction(float(res.x[0])), Fraction(float(res.x[1]))
+                    dm = float(a1 / (gref * K * common.hz(z.sample_rate)))
+                    ref_hz = 1 / math.sqrt(float(b1 * gref / a1))
+                    sol = (dm, in_unit(ref_hz, rnd.choice(list(UN))))
+                    break
+            if sol is None:
+                continue
+        case["dm"] = sol[0]
+        if sol[1] is not None:
+            case["ref"] = sol[1]
+        ref = Q(case["ref"]) if case.get("ref") is not None else z.center_freq
+        dx = exact_delays(z, Fraction(float(case["dm"])), ref)
+        if all(abs(x - di) < Fraction(48, 100) for x, di in zip(dx, d)):
+            return case
+    return None
+
+
+def replay_gen(gen, case):
+    """perform the realised call, compare with the record TLC printed.
+    Returns a list of (key, description)."""
+    z, data = incoh_signal(case)
+    DM, _ = _dm(case)
+    kw = {"ref_freq": Q(case["ref"])} if case.get("ref") is not None else {}
+    what = "incoherent_dedispersion(%s len=%d d=%r hasT=%s; DM=%r ref=%r cf=%r)" % (
+        case["cls"], gen["len"], gen["d"], gen["hasT"], case["dm"], case.get("ref"), case["cf"])
+    try:
+        y = pb.incoherent_dedispersion(z, DM, **kw)
+        out = compute(y)
+    except Exception as ex:      # noqa
+        if gen["ok"] and gen["outlen"] > 0:
+            return [("gen:incoh:refused", "%s raised %r, spec returns %d samples" % (what, ex, gen["outlen"]))]
+        return []
+    if not gen["ok"] or gen["outlen"] == 0:
+        if out.shape[0] != 0:
+            return [("gen:incoh:no-valid-time-but-samples-returned", "%s returned %d samples, spec: none valid"
+                     % (what, out.shape[0]))]
+        return []
+    bad = []
+    if out.shape[0] != gen["outlen"]:
+        return [("gen:incoh:length", "%s returned %d samples, spec says %d" % (what, out.shape[0], gen["outlen"]))]
+    src, ok = decode_ident(out, case["nchan"])
+    if not ok:
+        bad.append(("gen:incoh:channel-or-trailing-moved", "%s: samples moved across channels / trailing axes" % what))
+    if src != [list(r) for r in gen["src"]]:
+        bad.append(("gen:incoh:source", "%s: output samples come from %r, spec says %r" % (what, src, gen["src"])))
+    s = start_fields(z, y)
+    if gen["hasT"]:
+        if not s["outT"]:
+            bad.append(("gen:incoh:start-lost", "%s lost its start time" % what))
+        elif abs(exact.unrat(s["adv"]) - gen["adv"]) > exact.unrat(s["advtol"]):
+            bad.append(("gen:incoh:start", "%s: start advanced by %s samples, spec says %d"
+                        % (what, float(exact.unrat(s["adv"])), gen["adv"])))
+    elif s["outT"]:
+        bad.append(("gen:incoh:start-none", "%s: start time from nowhere" % what))
+    if meta_rec(z) != meta_rec(y):
+        bad.append(("gen:incoh:metadata", "%s: class / band / labels / trailing shape / meta changed" % what))
+    return bad
